@@ -220,6 +220,7 @@ type cliRunner struct {
 	batchID  int
 	batchDir string
 	batch    []batchMember
+	hangs    int // invocations stopped by the time limit; after two the binary is not started again
 }
 
 func newCliRunner(repo string) *cliRunner {
@@ -254,7 +255,11 @@ func (c *cliRunner) lint(arg string) (result string, exit int) {
 	if !c.ok {
 		return "buildfail - -", -3
 	}
-	ctx, cancel := context.WithTimeout(context.Background(), 60*time.Second)
+	if c.hangs >= 2 {
+		// the command did not terminate twice (status -1 was reported for those files): do not wait again
+		return "-1 - -", -1
+	}
+	ctx, cancel := context.WithTimeout(context.Background(), 20*time.Second)
 	defer cancel()
 	cmd := exec.CommandContext(ctx, c.exe, "lint", arg)
 	cmd.Env = append(os.Environ(), "TERM=dumb", "NO_COLOR=1", "GOTRACEBACK=single")
@@ -266,6 +271,9 @@ func (c *cliRunner) lint(arg string) (result string, exit int) {
 		if ee, isExit := err.(*exec.ExitError); isExit {
 			exit = ee.ExitCode() // -1: killed by a signal / the time limit
 			status = strconv.Itoa(exit)
+			if ctx.Err() != nil {
+				c.hangs++
+			}
 		} else {
 			exit = -2
 			status = "ioerr"
@@ -298,6 +306,9 @@ func (c *cliRunner) add(n int, text []byte) string {
 			_ = os.WriteFile(filepath.Join(c.batchDir, "000000.txt"), []byte("BO_ 1 not_a_dbc_file: 8 Ghost\r\n"), 0o600)
 			_ = os.WriteFile(filepath.Join(c.batchDir, "zzzzzz.dbc.bak"), []byte("VERSION \"decoy\"\r\n"), 0o600)
 			_ = os.WriteFile(filepath.Join(c.batchDir, "README"), []byte("BU_: A A\n"), 0o600)
+			// a DIRECTORY whose name ends in .dbc is not a file to lint (its content is walked like any directory)
+			_ = os.MkdirAll(filepath.Join(c.batchDir, "zzzdir.dbc"), 0o700)
+			_ = os.WriteFile(filepath.Join(c.batchDir, "zzzdir.dbc", "inner.txt"), []byte("BU_: A A\n"), 0o600)
 		}
 	}
 	path := filepath.Join(c.batchDir, fmt.Sprintf("%06d.dbc", n))
